@@ -97,7 +97,7 @@ Print Assumptions compare_sound.
 (** carquet_statistics_range_overlaps reports an overlap whenever the data holds a value inside the (one- or two-sided)
     query range. *)
 Theorem overlap_sound : forall t ps data qmin qmax,
-  reader_type t ->
+  helper_type t ->
   (forall a, qmin = Some a -> wf_val t a) -> (forall b, qmax = Some b -> wf_val t b) ->
   lower_ok t (ps_min_value ps) data -> upper_ok t (ps_max_value ps) data ->
   (exists v, In v data /\ (forall a, qmin = Some a -> sat t OpGe v a = true) /\
@@ -108,7 +108,7 @@ Print Assumptions overlap_sound.
 
 (** carquet_column_index_page_might_match keeps every page that holds a value inside the query range. *)
 Theorem page_might_match_sound : forall t pages idx pg data qmin qmax,
-  reader_type t -> 0 <= idx -> nth_error pages (Z.to_nat idx) = Some pg -> page_wf pg ->
+  helper_type t -> 0 <= idx -> nth_error pages (Z.to_nat idx) = Some pg -> page_wf pg ->
   (pg_null_page pg = true -> data = []) ->
   (forall a, qmin = Some a -> wf_val t a) -> (forall b, qmax = Some b -> wf_val t b) ->
   lower_ok t (pg_min pg) data -> upper_ok t (pg_max pg) data ->
